@@ -51,6 +51,14 @@ def _run(name, prop, jobs, bounds, expected, models, extra_assume=()):
     return part
 
 
+def _pjob(h, label, budget, **params):
+    j = _job(h, label, budget, **params)
+    j["harness"] = "harness.py.genproto:" + h
+    j["limits"]["max_readinto"] = 200
+    j["limits"]["max_decisions"] = 2000
+    return j
+
+
 def c07_py_protocols(prop="C07", tier="quick", seed=0, **kw):
     quick = tier != "thorough"
     nmax = 3 if quick else 4
@@ -63,7 +71,21 @@ def c07_py_protocols(prop="C07", tier="quick", seed=0, **kw):
         jobs.append(_job("h_c07_reader", "c07.reader:P" + p, b, pattern=p))
         if "S" in p:
             jobs.append(_job("h_c07_reader_iter", "c07.reader-iter:P" + p, b, pattern=p))
-    expected = ["c07.writer-init-is-initial-state", "c07.reader-init-is-initial-state", "c07.schemas-agree",
+    # the concrete generated classes (runtime base class + generated base class by multiple inheritance): the same one-step simulation
+    # on Binary<P>Writer / Reader and NDJson<P>Writer / Reader, and write calls whose implementation raises (harness/py/genproto.py)
+    for p in pats:
+        for fmt in ("binary", "ndjson"):
+            for role in ("writer", "reader"):
+                jobs.append(_pjob("h_c07_concrete", "c07.concrete:%s:%s:P%s" % (fmt, role, p), b, pattern=p, fmt=fmt, role=role))
+        if "S" in p[:-1]:
+            jobs.append(_pjob("h_c07_binary_failure", "c07.binary-failure:P" + p, b, pattern=p))
+    expected = ["c07.writer-implementation-error-propagates", "c07.writer-state-after-failed-write",
+                "c07.concrete-constructed", "c07.concrete-call-accepted-only-in-order", "c07.concrete-post-state-related", "c07.concrete-rejection-is-ProtocolError",
+                "c07.concrete-call-rejected-only-out-of-order", "c07.concrete-rejected-call-has-no-effect", "c07.concrete-close-succeeds-only-if-complete",
+                "c07.concrete-close-fails-only-if-incomplete",
+                "c07.failing-write-raises-the-implementation-error", "c07.ended-stream-cannot-be-written-again", "c07.close-after-failed-write-is-rejected",
+                "c07.bytes-after-failure==reference-prefix", "c07.retry-after-failed-write-is-accepted", "c07.bytes-after-failure==reference",
+                "c07.writer-init-is-initial-state", "c07.reader-init-is-initial-state", "c07.schemas-agree",
                 "c07.writer-accepts-only-in-order", "c07.writer-hooks-as-specified", "c07.writer-value-passed-unchanged", "c07.writer-post-state-related",
                 "c07.writer-rejection-is-ProtocolError", "c07.writer-rejects-only-out-of-order", "c07.writer-rejected-call-has-no-effect",
                 "c07.writer-close-hooks-as-specified", "c07.writer-close-succeeds-only-if-complete", "c07.writer-close-fails-only-if-incomplete",
@@ -76,11 +98,59 @@ def c07_py_protocols(prop="C07", tier="quick", seed=0, **kw):
                 "c07.iter-unconsumed-iterable-fails-close"]
     bounds = {"protocol_length": "1..%d, every stream/non-stream pattern (%d protocols)" % (nmax, len(pats)), "payload": "int32, symbolic",
               "pre_state": "symbolic _state in [-3, 2n+4] constrained to the simulation relation _state == 2*i + open",
-              "argument": "base case + one inductive step per public method and per iterable event (covers call histories of any length)"}
+              "argument": "base case + one inductive step per public method and per iterable event (covers call histories of any length)",
+              "implementation failures": "event `_write_<step> raises` in the inductive step (post-state = step not written, a stream in progress before it ended for good); on the real "
+                                         "Binary<P>Writer: out-of-range value / caller's iterable raising after 0-1 items, then retry | write to the ended stream | close, then the rest of the protocol",
+              "concrete classes": "Binary / NDJson x Writer / Reader of every pattern: constructor, then a symbolic related _state, then one public call (write / read / close / __exit__)"}
     return _run("c07_py_protocols", prop, jobs, bounds, expected, ["c07seq"],
-                extra_assume=["C07 specification automaton: a stream step counts as written after >= 1 write call (possibly empty) and is ended by the next step's call or by close; "
+                extra_assume=["C07 failed writes: when the implementation of an accepted write_<step k> raises, step k counts as not written; a stream in progress before step k was ended by the call "
+                              "(its end marker is emitted before the implementation is entered) and stays ended","C07 specification automaton: a stream step counts as written after >= 1 write call (possibly empty) and is ended by the next step's call or by close; "
                               "_close runs on every close (also when the protocol is incomplete); calls after close are not constrained",
                               "C07 reader: pre-states with an open iterable are constructed through read_<step> from the related state (i, not open)"])
+
+
+def c17_py_protocol_batches(prop="C17", tier="quick", seed=0, **kw):
+    """C17 through the generated Binary<P>Writer / Reader: how the items of a stream step are grouped into write calls never shows
+    in the items read back - in particular for a stream step that directly follows (or precedes) another stream step."""
+    quick = tier != "thorough"
+    b = 60 if quick else 300
+    nmax = 3 if quick else 4
+    pats = ["".join(p) for n in range(1, nmax + 1) for p in itertools.product("VS", repeat=n) if "S" in p]
+    if quick:
+        pats = [p for p in pats if len(p) < 3 or "SS" in p or p in ("SVS", "VSV")]
+    jobs = [_pjob("h_c17_gen_batches", "c17.gen-batches:P" + p, b, pattern=p, nmax=2 if quick else 3) for p in pats]
+    expected = ["c17.gen-write-no-exception", "c17.gen-bytes==reference(grouping)", "c17.gen-read-no-exception", "c17.gen-items-read==items-written", "c17.gen-whole-stream-consumed", "int80-exact"]
+    bounds = {"protocols": pats, "focus": "one stream step (solver-chosen) with 0..%d items in every grouping into write calls (lists / generators / alternating, optional empty call in front or after the "
+                                          "first group); every other stream step one item in one call" % (2 if quick else 3),
+              "items": "int32, symbolic in [-64, 63] (one varint length class; the integer codecs are C01's subject)", "buffer_size": 65536}
+    return _run("c17_py_protocol_batches", prop, jobs, bounds, expected, ["c07seq"],
+                extra_assume=["C17 generated: block structure of the reference encoding: a non-empty list passed to write_<step> = one block, any other iterable = one block per item, an empty call = nothing; "
+                              "one end marker per stream step, emitted before the next step's first byte / at close"])
+
+
+SCHEMA_EDIT_PROTOS = ["PEnum", "PRecord", "PUnion", "PArray", "PStream", "PMap", "PVector"]
+
+
+def c15_py_schema_edits(prop="C15", tier="quick", seed=0, **kw):
+    """C15 on the generated readers: a header whose schema is the reader's own schema after one edit of the JSON document is refused"""
+    quick = tier != "thorough"
+    b = 60 if quick else 300
+    from harness.py import generated as HG
+    protos = SCHEMA_EDIT_PROTOS[:5] if quick else sorted(HG.C01_PROTOS)
+    jobs = []
+    for p in protos:
+        for fmt in ("ndjson", "binary"):
+            j = _pjob("h_schema_edits", "schema-edits:%s:%s" % (fmt, p), b, proto=p, fmt=fmt)
+            j["limits"]["max_paths"] = 40000
+            jobs.append(j)
+    expected = ["schema-edit.accepted-only-if-schema-equal", "schema-edit.only-the-header-consumed", "schema-edit.refusal-is-the-documented-error", "schema-edit.refused-only-if-schema-differs"]
+    bounds = {"protocols": protos, "readers": "generated NDJson<P>Reader and Binary<P>Reader constructors (model family c01types)",
+              "edits": "the reader's own schema document unedited or after ONE solver-chosen edit: every array at every depth: drop last / drop first / append a new element / duplicate the last / swap two "
+                       "neighbours; every object: add / rename / drop a member; every scalar: integers -> a symbolic 32-bit integer (NDJSON) or a pool, strings -> 4 variants, null -> empty values of other kinds",
+              "not required": "type-changing edits between JSON-number-like values that Python's == identifies (1 / true / 1.0) are not generated"}
+    return _run("c15_py_schema_edits", prop, jobs, bounds, expected, ["c01types"],
+                extra_assume=["C15 schema edits / NDJSON: json.loads of the header line is stubbed under pysym (returns the edited document, integer leaves symbolic); natively the line is the JSON text of that document",
+                              "C15 schema edits oracle: NDJSON reader accepts iff the header schema is JSON-equal to its own (objects unordered, arrays ordered and of equal length); binary reader iff the schema text is identical"])
 
 
 def c19_py_computed(prop="C19", tier="quick", seed=0, **kw):
@@ -198,7 +268,7 @@ def c01_py_generated(prop="C01", tier="quick", seed=0, **kw):
                               "C01 generated: values are in range (range rejection is covered by c01_py_kernels)"])
 
 
-FUNCS = {"c07_py_protocols": c07_py_protocols, "c19_py_computed": c19_py_computed, "c01_py_generated": c01_py_generated}
+FUNCS = {"c07_py_protocols": c07_py_protocols, "c15_py_schema_edits": c15_py_schema_edits, "c17_py_protocol_batches": c17_py_protocol_batches, "c19_py_computed": c19_py_computed, "c01_py_generated": c01_py_generated}
 
 
 def main():
